@@ -163,6 +163,14 @@ class MediaQuery(cssutils.util._NewBase):  # cssutils.util.Base):
 
         # parse
         ok, seq, store, unused = ProdParser().parse(mediaText, 'MediaQuery', prods)
+        if ok:
+            # a value which is not wellformed invalidates the query
+            for item in seq:
+                if isinstance(item.value, cssutils.css.value.Value) and (
+                    not item.value.wellformed
+                ):
+                    ok = False
+                    break
         self._wellformed = ok
         if ok:
             try:
